@@ -183,7 +183,12 @@ def audit(form, xform, api_default_language=None):
                 parts = [q.strip() for q in k.split("::")]
                 if parts[0].lower() == "media" and len(parts) in (2, 3) and parts[1] == kind:
                     cells[parts[2] if len(parts) == 3 else None] = v
-            if not cells or lref is None or not any(k2.split("::")[0].strip().lower() in ("label",) for k2 in row):
+            if not cells:
+                continue
+            if lref is None:
+                # media and no label element to carry it (a group with an image and no words): shown to nobody
+                if lab is None or not (lab.text or "").strip():
+                    probs.append(f"{p}: the {kind} cell(s) {cells} are referenced by nothing: the control has no label element that carries media")
                 continue
             tid = re.match(r"jr:itext\('(.*)'\)", lref).group(1)
             for l in langs:
